@@ -225,10 +225,12 @@ theorem recover_progress_between {T : Tables} {inp : Array Nat} {wb : Bool} {fue
     have := hr.remaining
     exact .inr (by omega)
 
-/-- With EOF never shifted, every continuing iteration pays for itself out of the potential,
-and a successful recovery costs at least one unit. -/
-theorem step_potential {T : Tables} (hT : NoShiftEOF T) {inp : Array Nat} {wb : Bool} {fuel : Nat}
-    {s s' : PState} (h : step T inp wb fuel s = .cont s') :
+/-- If the iteration does not shift EOF, it pays for itself out of the potential, and a successful
+recovery costs at least one unit. -/
+theorem step_potential' {T : Tables} {inp : Array Nat} {wb : Bool} {fuel : Nat} {s s' : PState}
+    (hE : ∀ top a, topState s.stack = some top → find T.actions top s.la = .hit a →
+      a ≠ acceptCode → a ≥ 0 → s.la ≠ tEOF)
+    (h : step T inp wb fuel s = .cont s') :
     potential inp s' + (if isRecoverStep T s then 1 else 0) ≤ potential inp s := by
   cases step_cont h with
   | recover htop hf hr =>
@@ -249,18 +251,24 @@ theorem step_potential {T : Tables} (hT : NoShiftEOF T) {inp : Array Nat} {wb : 
         rw [hfr]; simp [shiftState, hla]
       simp only [potential, this]
       split <;> omega
-    · have hE : s.la ≠ tEOF := by
-        intro hE
-        rw [hE] at hf
-        rcases hT _ _ hf with h1 | h1
-        · exact hacc h1
-        · omega
-      have h1 := realLa_real hE hla
+    · have hE' : s.la ≠ tEOF := hE _ _ htop hf hacc hsh
+      have h1 := realLa_real hE' hla
       simp only [potential]
       split <;> split <;> omega
   | reduce htop hf =>
     rw [isRecoverStep_hit htop hf]
     exact Nat.le_refl _
+
+/-- With EOF never shifted, every continuing iteration pays for itself out of the potential,
+and a successful recovery costs at least one unit. -/
+theorem step_potential {T : Tables} (hT : NoShiftEOF T) {inp : Array Nat} {wb : Bool} {fuel : Nat}
+    {s s' : PState} (h : step T inp wb fuel s = .cont s') :
+    potential inp s' + (if isRecoverStep T s then 1 else 0) ≤ potential inp s := by
+  refine step_potential' (fun top a _ hf hacc hsh hE => ?_) h
+  rw [hE] at hf
+  rcases hT _ _ hf with h1 | h1
+  · exact hacc h1
+  · omega
 
 /-! ## The ghost counter -/
 
